@@ -285,6 +285,14 @@ func urnReceiver(e *Env, rule, site string, fn *ssa.Function, call *ssa.Call) {
 							onlyRecv = false
 						}
 					}
+					// the copy's address handed to a call (`i.canon()` with a pointer receiver): it may be written there
+					if c, ok := r.(*ssa.Call); ok {
+						for _, a := range c.Call.Args {
+							if a == ssa.Value(al) {
+								onlyRecv = false
+							}
+						}
+					}
 					// a field of the receiver's copy written before the call (`i.Lower = …`)
 					if fa, ok := r.(*ssa.FieldAddr); ok && fa.Referrers() != nil {
 						for _, rr := range *fa.Referrers() {
